@@ -1050,9 +1050,12 @@ func runC09(c *vh.Ctx) {
 		if json.Unmarshal(rp.Failure.Case, &cs) != nil {
 			panic("replay file has no C09 case")
 		}
-		whole = append(whole, cs)
-		if items, ok := parseC(vh.Unhx(cs.Fmt)); ok && len(items) == 1 && items[0].IsSpec {
-			addSpec(cs.Chars, items[0], cs.Args, "replay")
+		// a print-path / CONVFMT-site / print case carries no format: those streams are re-run below with the replay's seed
+		if cs.Fmt != "" {
+			whole = append(whole, cs)
+			if items, ok := parseC(vh.Unhx(cs.Fmt)); ok && len(items) == 1 && items[0].IsSpec {
+				addSpec(cs.Chars, items[0], cs.Args, "replay")
+			}
 		}
 	}
 
@@ -1174,6 +1177,7 @@ func runC09(c *vh.Ctx) {
 	}
 	c09ErrorOracle(c)
 	c09PrintOracle(c)
+	c09PrintPaths(c)
 
 	// -- correspondence with the Lean model
 	if c.HasLean() {
